@@ -3,7 +3,7 @@
    The references are extracted from the REAL generated tokens by harness/genprobe (a syn visitor);
    this file is executable (the checker is extracted and run on them). *)
 Require Export Strum.Model.Bytes.
-Open Scope string_scope.
+Local Open Scope string_scope.
 
 Record pref := { p_abs : bool;          (* written with a leading `::` *)
                  p_segs : list str }.   (* the identifiers of the segments *)
